@@ -9,7 +9,10 @@ of {8, 12, 20} — through `fdtdx.run_fdtd`, judged by two oracles:
  (1) residual: EnergyDetector over the interior cells only; energy at the last step / its peak < 1e-6;
  (2) transparency: FieldDetector record over the interior (raw Yee samples, every step) against the record of the SAME
      source in a much larger domain (24 extra vacuum cells and a 16-cell layer on every side; one reference run per
-     source configuration, shared by all thicknesses): sum_t (|dE|^2+|dH|^2) / sum_t (|E|^2+|H|^2) < 1e-4.
+     source configuration, shared by all thicknesses): sum_t (|dE|^2+|dH|^2) / sum_t (|E|^2+|H|^2) < 1e-4, evaluated over
+     two recording regions: the whole interior, and (dipoles) the interior without the 3x3x3 cells around the source
+     cell, whose singular near field otherwise dominates the denominator (measured: a 4x too weak layer changes the
+     whole-interior figure to 2e-5 but the away-from-source figure to 3e-4).
 """
 import math
 
@@ -18,7 +21,7 @@ LEVEL = "exploration"
 MANIFEST = {
     "engine": "E4-scene-sweep",
     "technique": "bounded exhaustive sweep of a finite scene menu (dipole polarizations x positions x layer thicknesses; plane-pulse directions x extents) through run_fdtd against threshold oracles and a large-domain reference run",
-    "text": "Every scene of the stated finite menu (16^3 interior, PML of 8/12/20 cells on all six faces, zero-net-charge Gaussian pulse; point dipoles of all three polarizations at the centre, next to each of the six faces, next to four edges and in three corners, >= 3 cells from the layers; pulsed plane sources in all six directions, as a finite aperture and spanning the full cross-section) is run through fdtdx.run_fdtd; the interior energy after the pulse has left must be < 1e-6 of its peak and the interior field record must agree with the same source in a domain enlarged by 40 cells per side to < 1e-4 in relative energy.",
+    "text": "Every scene of the stated finite menu (16^3 interior, PML of 8/12/20 cells on all six faces, zero-net-charge Gaussian pulse; point dipoles of all three polarizations at the centre, next to each of the six faces, next to four edges and in three corners, >= 3 cells from the layers; pulsed plane sources in all six directions, as a finite aperture and spanning the full cross-section) is run through fdtdx.run_fdtd; the interior energy after the pulse has left must be < 1e-6 of its peak and the interior field record (whole interior, and for dipoles also the interior without the 3x3x3 cells around the source) must agree with the same source in a domain enlarged by 40 cells per side to < 1e-4 in relative energy.",
     "note": "Threshold property over a continuous scene family: model checking contributes only the exhaustive sweep of the menu, nothing is sampled. The reference domain ends in the same kind of layer (16 cells, 24 cells further out) rather than being light-cone isolated (that would need 188^3 cells); thorough adds a reference-convergence case (margin 24 vs 40). float64, T=300 steps, 20 cells per carrier wavelength.",
 }
 RULE = (
@@ -33,6 +36,7 @@ ASSUMPTIONS = [
     "finite menu: 16^3 interior, thicknesses {8,12,20}, 20 cells per carrier wavelength, Gaussian pulse with spectral width f0/3, 300 steps",
     "zero net charge is enforced by an odd-symmetric carrier (phase_shift = pi/2 - omega0*t0); the sampled pulse's net current is re-checked in numpy (< 1e-6 of its L1 norm)",
     "the reference domain is terminated by a 16-cell layer 24 cells further out (not light-cone isolated); its own residual is checked (< 1e-7) and thorough compares margin 24 against margin 40",
+    "recording regions: the whole 16^3 interior and, for dipoles, the interior minus the 27 cells around the source cell",
     "float64 evaluation is representative of the float32 default",
     "default PML grading parameters",
 ]
@@ -210,6 +214,8 @@ def run_case(case):
             fails.append(dict(sig=f"residual-energy>=1e-6:{src}:thickness={th}", detail=el, sub=th))
         if not diff < THRESH_RECORD:
             fails.append(dict(sig=f"record-differs-from-large-domain>=1e-4:{src}:thickness={th}", detail=el, sub=th))
+        elif not el.get("record_difference_without_source_neighbourhood", 0.0) < THRESH_RECORD:
+            fails.append(dict(sig=f"record-away-from-source-differs-from-large-domain>=1e-4:{src}:thickness={th}", detail=el, sub=th))
         nt = peak > PEAK_FLOOR and int(np.argmax(en)) < 200 and left and den > 0
         nontriv += int(nt)
         k = f"{case['kind']}:th={th}:residual~1e{int(math.floor(math.log10(max(res, 1e-300)))) if math.isfinite(res) else 'inf'}"
